@@ -190,6 +190,21 @@ func Enumerate(thorough bool) []Schema {
 			add(WithSupport(Obj{Name: "Root", T: irgen.StructN([]irgen.Field{{Name: "a", Required: true}, {Name: "b", Required: false}}, []Term{a, b})}))
 		}
 	}
+	// the same shape twice in one object with different requiredness (passes that
+	// name or cache generated types see a second occurrence), in both orders
+	for _, u := range append(scalarUnions(), discUnion(), irgen.Enum("str"), irgen.Struct1("g", true, irgen.S("string"))) {
+		for _, order := range [][2]bool{{true, false}, {false, true}} {
+			add(WithSupport(Obj{Name: "Root", T: irgen.StructN([]irgen.Field{{Name: "a", Required: order[0]}, {Name: "b", Required: order[1]}}, []Term{u, u})}))
+		}
+	}
+	// two wrappers (container of containers) over two leaves: the shapes where
+	// generated decoders nest their loops
+	for _, l := range []Term{irgen.S("string"), ref("S")} {
+		for _, t := range []Term{irgen.Map(irgen.Array(l)), irgen.Array(irgen.Map(l)), irgen.Array(irgen.Array(l)), irgen.Map(irgen.Map(l))} {
+			add(Field1(t, true))
+			add(Field1(t, false))
+		}
+	}
 	if thorough {
 		// size 3: two wrappers over a reduced leaf set
 		inner := []Term{irgen.S("string"), c(irgen.S("int64")), irgen.Enum("str"), ref("S"), ref("P"), irgen.S("any")}
